@@ -1062,7 +1062,7 @@ Section B.
   Lemma BasicParser_sp s b u ov : result_sp (u_sp u) (BasicParser idna_raw c s b (Some u) ov).
   Proof.
     unfold BasicParser.
-    destruct (remove_tabnl (u_input (set_input u s))) as [i changed]. destruct changed.
+    destruct (remove_tabnl_sv (c_acceptInvalid c) (u_input (set_input u s))) as [i changed]. destruct changed.
     - pose proof (handleError_sp c (set_input u s) InvalidURLUnit false) as H.
       destruct (handleError c (set_input u s) InvalidURLUnit false) as [u' [e|]]; cbn [fst] in H.
       + exact H.
@@ -1081,13 +1081,13 @@ Section B.
   Proof.
     unfold BasicParser. destruct (trim_c0space s) as [i changed].
     assert (K : forall u, u_sp u = None ->
-      result_sp None (let '(i0, changed0) := remove_tabnl (u_input u) in
+      result_sp None (let '(i0, changed0) := remove_tabnl_sv (c_acceptInvalid c) (u_input u) in
         let k := fun u0 : url => run idna_raw c (decode (u_input u0)) (option_map clone b) ov
                    (fuel_of (length (decode (u_input u0)))) (mk match ov with Some s0 => s0 | None => SchemeStart end (-1) false [] false false false u0) in
         if changed0 then match handleError c u InvalidURLUnit false with
                          | (u', Some e) => RErr u' e | (u', None) => k (set_input u' i0) end
         else k u)).
-    { intros u Hu. destruct (remove_tabnl (u_input u)) as [i0 ch0]. destruct ch0.
+    { intros u Hu. destruct (remove_tabnl_sv (c_acceptInvalid c) (u_input u)) as [i0 ch0]. destruct ch0.
       - pose proof (handleError_sp c u InvalidURLUnit false) as H.
         destruct (handleError c u InvalidURLUnit false) as [u' [e|]]; cbn [fst] in H.
         + cbn. congruence.
